@@ -61,6 +61,9 @@ PROPS = {
                 assumptions=["schedule points exist only with build tag verif (client/pkg/verifhook)", "Go memory model / data races are not decided (named gap)"]),
     "C06": dict(lean=["Orda.Props.C06"], rule="non-trivial: ≥2 clients pushed to the same datatype and at least one request was a re-push, an empty push or came after other clients' pushes; store dumped and checked after EVERY request; distinct command sequences",
                 slices=[S("svclog", 60, 900, ["corr", "loginv", "no_panic"]), S("mut", 60, 900, ["corr", "loginv", "refused_noop"])], assumptions=SERVICE_ASSUMPTIONS),
+    "C12": dict(lean=["Orda.Props.C12"], rule="each case: 2..16 clients over 1..2 keys; four rounds in which ALL clients call ProcessPushPull simultaneously (own contexts, cancelled on return); the derived serial order is replayed by the model; non-trivial: ≥2 clients pushed operations to the same key in one round; distinct command sequences",
+                slices=[S("par", 14, 160, ["corr", "loginv", "sconverge", "refused_noop"])],
+                race=dict(profile="par", cases=6), assumptions=SERVICE_ASSUMPTIONS[:1] + ["the serial order is derived from the responses (per key by committed end of log; pullers after the pusher that produced their end)", "data races / runtime deadlocks are looked for (race detector, deadline) but not excluded by proof"]),
     "C13": dict(lean=["Orda.Props.C13"], rule="non-trivial: a case exercises ≥2 entry modes on one key, or a refusal (create on existing / subscribe to missing / other type); distinct command sequences",
                 slices=[S("svc", 70, 1000, ["corr", "contract", "sconverge", "loginv"]), S("mut", 40, 600, ["corr", "contract", "refused_noop"])], assumptions=SERVICE_ASSUMPTIONS),
     "C16": dict(lean=["Orda.Props.C16"], rule="non-trivial: the case contains ≥1 mutated request that was refused and ≥1 later accepted request of the same client; distinct command sequences",
@@ -101,6 +104,9 @@ def nontrivial(pid, case):
         syncs = [ln for ln, _ in case if ln.get("k") == "sync"]
         pushers = set(ln.get("c") for ln in syncs if any((p or {}).get("ops") for p in ln.get("obs", {}).get("req", []) or []))
         refused = [ln for ln in syncs if ln.get("obs", {}).get("rpc") or any(((p or {}).get("opt", 0) & 32) for p in (ln.get("obs", {}).get("resp") or []))]
+        if pid == "C12":
+            par = [ln for ln in syncs if ln.get("parallel")]
+            return len(set(ln.get("c") for ln in par if any((p or {}).get("ops") for p in ln.get("obs", {}).get("req", []) or []))) >= 2
         if pid == "C08":
             return "fault" in hdr
         if pid == "C07":
@@ -121,8 +127,30 @@ def trace_of(case):
     return [oracles.strip(ln) for ln, _ in case]
 
 
+def race_run(pid, P, seed, scratch, log):
+    """search support (never the claim): the same slice under the Go race detector"""
+    r = P.get("race")
+    if not r:
+        return []
+    rb = os.path.join(core.BIN, "ordadrive_race")
+    rc, out = core.sh(["go", "build", "-race", "-tags", "verif", "-o", rb, "./cmd/ordadrive"], cwd=core.HARNESS,
+                      env=dict(core.GOENV, CGO_ENABLED="1"), timeout=1800)
+    if rc != 0:
+        log("race build not available: %s" % out[-300:])
+        return []
+    tr = os.path.join(scratch, "race.trace")
+    rc, out = core.sh([rb, "-profile", r["profile"], "-cases", str(r["cases"]), "-seed", str(seed), "-out", tr], timeout=3600)
+    reports = [b for b in out.split("==================") if "DATA RACE" in b and "/repo/server/" in b]
+    log("race detector: %d report(s) touching /repo/server" % len(reports))
+    if reports:
+        return [dict(oracle="race", what="data-race", profile=r["profile"], seed=seed, trace=[], detail=reports[0][:3000], step=0)]
+    return []
+
+
 def run_slices(pid, P, tier, seed, scratch, cov, distinct, log):
     fails = []
+    if tier == "thorough":
+        fails += race_run(pid, P, seed, scratch, log)
     for sl in P["slices"]:
         n = sl["quick"] if tier == "quick" else sl["thorough"]
         if tier == "search":
